@@ -391,10 +391,17 @@ def run() -> int:
                 f"value {v['est']} != P(event) = {v['truth']} at {v['env']}" if v["kind"] == "wrong" else v["why"]
             )
             rep.add_violation(Violation(PROP, [key] + list(r.get("explained") or []), what, p))
+    from .. import history_runs
+
+    history_runs.run(rep, PROP)
     return rep.finish()
 
 
 def replay(payload: dict) -> int:
+    if payload.get("kind") == "history":
+        from .. import history_runs
+
+        return history_runs.replay(PROP, payload)
     g = GSpec.from_json(payload["graph"])
     ev = ev_from_json(payload["event"])
     print("graph", g.key(), "event", ev_str(ev))
